@@ -55,7 +55,7 @@ func NewWorld(rng *rand.Rand, pageLimit int, mainnet bool, pollMs uint, step fun
 			TokenByAddress[addrOf(id)] = id
 			tokMu.Unlock()
 		}
-		for _, mode := range []string{"http500", "two-results", "m1-failed", "m2-failed", "wrong-types", "long", "all-failed"} {
+		for _, mode := range []string{"http500", "two-results", "m1-failed", "m2-failed", "wrong-types", "long", "all-failed", "m0-no-return", "m1-no-return", "m2-no-return", "m0-two-returns"} {
 			id := randHex(rng, 32)
 			s.Tokens[id] = &Token{Symbol: "BAD", Name: "Bad token", Decimals: 8, Mode: mode}
 			w.BadToks = append(w.BadToks, id)
